@@ -269,6 +269,16 @@ func rewriteFile(pkg *packages.Package, f *ast.File, sites *[]site) int {
 			if tv, ok := info.Types[n.X]; ok && isMap(tv.Type) && mentionsLocalField(n.X, localField) {
 				acts[n] = "range-m"
 			}
+		case *ast.IncDecStmt:
+			// x.f++ is a read, then a write: split it so that a thread holding no lock can be
+			// preempted in between (a counter bumped outside the critical section loses updates)
+			if sel, ok := n.X.(*ast.SelectorExpr); ok && localField(sel) {
+				if tv, ok := info.Types[sel]; ok && tv.Addressable() && !isLockType(tv.Type) {
+					if _, inBlock := c.Parent().(*ast.BlockStmt); inBlock {
+						acts[n] = "incdec"
+					}
+				}
+			}
 		case *ast.CallExpr:
 			if id, ok := n.Fun.(*ast.Ident); ok && len(n.Args) >= 1 {
 				if b, ok := info.Uses[id].(*types.Builtin); ok {
@@ -339,6 +349,25 @@ func rewriteFile(pkg *packages.Package, f *ast.File, sites *[]site) int {
 				fn = "MW"
 			}
 			ix.X = call(fn, ix.X, newSite(n, a))
+		case "incdec":
+			st := n.(*ast.IncDecStmt)
+			// st.X has been rewritten to *vacc.W(&x.f, site) by now
+			star, ok := st.X.(*ast.StarExpr)
+			if !ok {
+				return true
+			}
+			p, v := ast.NewIdent("vaccP"), ast.NewIdent("vaccV")
+			op := token.ADD
+			if st.Tok == token.DEC {
+				op = token.SUB
+			}
+			c.Replace(&ast.BlockStmt{List: []ast.Stmt{
+				&ast.AssignStmt{Lhs: []ast.Expr{p}, Tok: token.DEFINE, Rhs: []ast.Expr{star.X}},
+				&ast.AssignStmt{Lhs: []ast.Expr{v}, Tok: token.DEFINE, Rhs: []ast.Expr{&ast.StarExpr{X: p}}},
+				&ast.ExprStmt{X: call("Mid")},
+				&ast.AssignStmt{Lhs: []ast.Expr{&ast.StarExpr{X: p}}, Tok: token.ASSIGN,
+					Rhs: []ast.Expr{&ast.BinaryExpr{X: v, Op: op, Y: &ast.BasicLit{Kind: token.INT, Value: "1"}}}},
+			}})
 		case "range-m":
 			r := n.(*ast.RangeStmt)
 			r.X = call("MR", r.X, newSite(r.X, "mr"))
